@@ -262,6 +262,17 @@ for _is64 in (False, True):
 for _n in (1, 4, 20):
     SYNTH["synth:hex:%d" % _n] = synth_hex(_n, _n)
     SYNTH["synth:srec:%d" % _n] = synth_srec(_n, _n)
+def synth_fat_self(n):
+    """fat header whose arch entries all point back at the file itself"""
+    size = 8 + 20 * n + 64
+    out = b"\xca\xfe\xba\xbe" + struct.pack(">I", n)
+    for k in range(n):
+        out += struct.pack(">IIIII", 7, 3, 0, size, 12)
+    return out + b"\0" * 64
+
+
+SYNTH["synth:fat:self1"] = synth_fat_self(1)
+SYNTH["synth:fat:self2"] = synth_fat_self(2)
 SYNTH["synth:fat:1"] = synth_fat(1)
 SYNTH["synth:fat:2"] = synth_fat(2)
 SYNTH["synth:empty"] = b""
